@@ -119,6 +119,40 @@ fn check_typed_positions(i: i64) -> CaseResult {
         }
         Err(_) => ensure!(!ok, "key type {} rejected though registered", i),
     }
+    // kty of a key inside a key set (before and after another key), and alg of a nested signer / recipient / counter-signature
+    let ok = reg::registered(reg::KEY_TYPE, i) && i != 0;
+    for first in [true, false] {
+        let other = Item::Map(vec![(Item::Int(1), Item::Int(4))]);
+        let this = Item::Map(vec![(Item::Int(1), n.clone())]);
+        let b = encode(&Item::Array(if first { vec![this, other] } else { vec![other, this] }));
+        match coset::CoseKeySet::from_slice(&b) {
+            Ok(ks) => {
+                ensure!(ok, "key set holding key type {} accepted though unregistered or reserved", i);
+                ensure!(ks.0.len() == 2, "key set of two keys (one of type {}) decoded to {} keys", i, ks.0.len());
+                let k = &ks.0[if first { 0 } else { 1 }];
+                let l = crate::model::reg_label_to_l(reg::KEY_TYPE, &k.kty)?;
+                ensure!(l == L::Int(i), "key type {} inside a key set decoded as {:?}", i, l);
+            }
+            Err(_) => ensure!(!ok, "key set holding key type {} rejected though registered", i),
+        }
+    }
+    {
+        let hdr = Item::Map(vec![(Item::Int(1), n.clone())]);
+        let signer = Item::Array(vec![Item::Bytes(vec![]), hdr.clone(), Item::Bytes(vec![1])]);
+        let plain = Item::Array(vec![Item::Bytes(vec![]), Item::Map(vec![]), Item::Bytes(vec![2])]);
+        let b = encode(&Item::Array(vec![Item::Bytes(vec![]), Item::Map(vec![(Item::Int(7), signer.clone())]), Item::Null, Item::Array(vec![plain, signer])]));
+        match coset::CoseSign::from_slice(&b) {
+            Ok(v) => {
+                ensure!(alg_ok, "nested alg {} accepted though unregistered and not private", i);
+                ensure!(v.signatures.len() == 2 && v.unprotected.counter_signatures.len() == 1, "COSE_Sign with nested alg {}: nested structures went missing", i);
+                for h in [&v.signatures[1].unprotected, &v.unprotected.counter_signatures[0].unprotected] {
+                    let l = crate::model::alg_to_l(h.alg.as_ref().ok_or("nested alg absent")?)?;
+                    ensure!(l == L::Int(i), "nested alg {} decoded as {:?}", i, l);
+                }
+            }
+            Err(_) => ensure!(!alg_ok, "nested alg {} rejected though registered or private", i),
+        }
+    }
     // key alg
     match CoseKey::from_slice(&m(vec![(Item::Int(1), Item::Int(1)), (Item::Int(3), n.clone())])) {
         Ok(k) => {
@@ -389,7 +423,7 @@ pub fn property() -> Property {
         title: "Registry names and integers correspond one-to-one with the IANA assignments",
         rule: "for each of the 16 registry enumerations: every integer of a scan window (quick ±2^18, thorough ±2^24) plus the 64-bit extremes through from_i64/to_i64/is_private, \
                the set of (name, integer) found compared for equality with the transcribed IANA table; every integer of [-70000, 70000] through RegisteredLabel / RegisteredLabelWithPrivate decoding \
-               and through the typed positions (header alg, crit, content type; key kty, alg, key_ops; claim key); generated: random 64-bit integers, texts (incl. registered names), several related text labels in one claims / header / key map (all kept, in order, and encodable again), styled encodings; \
+               and through the typed positions (header alg, crit, content type; key kty, alg, key_ops; kty inside key sets; alg of nested signers and counter-signatures; claim key); generated: random 64-bit integers, texts (incl. registered names), several related text labels in one claims / header / key map (all kept, in order, and encodable again), styled encodings; \
                non-trivial = integer assigned, adjacent to an assigned one, or within 2 of -65536; distinct by (registry, integer)",
         assumptions: &["the IANA tables in harness/src/registry.rs are a hand transcription of the registries the crate cites at its snapshot dates (trusted base; no network to re-fetch)"],
         exhaustive_domains: &[
